@@ -275,6 +275,53 @@ void small_case(vt::Rng& rng, int64_t icase)
     }
 }
 
+// destruction races: a small pool runs one or two raw tasks and is destroyed at the very moment its workers go back to sleep
+// (a stop flag raised without the queue's mutex, or a missing notification, is a lost wake-up here: ~pool_t() never returns)
+void race_case(vt::Rng& rng, int64_t icase)
+{
+    const auto hw     = static_cast<int64_t>(parallel::pool_t::max_size());
+    const auto nw     = std::clamp<int64_t>(rng.pick(std::vector<int64_t>{1, 1, 1, 2, 3}), 1, hw);
+    const auto ntasks = rng.range(1, 2);
+    const auto sched  = rng.coin(1, 4) ? rng.range(0, 1 << 20) : -1;
+    const auto spin   = rng.range(0, 3000);
+
+    reset_events();
+    verif::set_sched(sched);
+    g_case.store(icase);
+    g_case_started_ms.store(now_ms());
+    vt::put(vt::J("Reset").i("workers", nw).i("callers", 1).i("case", icase).i("sched", sched));
+    {
+        parallel::pool_t     pool(static_cast<size_t>(nw));
+        std::atomic<int64_t> finished{0};
+        g_tid = 0;
+        for (int64_t k = 1; k <= ntasks; ++k)
+        {
+            emit("EnqCall", {0, k});
+            pool.enqueue(
+                [k, &finished](const size_t tnum)
+                {
+                    emit("Begin", {0, k, -1, -1, static_cast<int64_t>(tnum), 0});
+                    emit("End", {0, k, -1, -1, static_cast<int64_t>(tnum), 0, 0});
+                    finished.fetch_add(1);
+                });
+        }
+        while (finished.load() < ntasks)
+        {
+        }
+        for (volatile int64_t i = 0; i < spin; ++i)
+        {
+        }
+    }
+    emit("Destroyed", {});
+    g_case_started_ms.store(0);
+    verif::set_sched(-1);
+    flush_events(true);
+    if (g_overflow.load() > 0)
+    {
+        vt::put(vt::J("Abort").s("why", "event buffer overflow"));
+    }
+}
+
 struct rec_t
 {
     int64_t b, e, tnum, sb, se;
@@ -391,6 +438,10 @@ int main(int argc, char* argv[])
     for (int64_t i = 0; i < nsmall; ++i)
     {
         small_case(rng, i);
+    }
+    for (int64_t i = 0; i < 4 * nsmall; ++i)
+    {
+        race_case(rng, 100000 + i);
     }
     for (int64_t i = 0; i < nbig; ++i)
     {
